@@ -536,7 +536,8 @@ func firstDiffField(want, got string) string {
 				if k := strings.Index(t, "="); k > 0 {
 					return t[:k]
 				}
-				return t
+				// a bare value (e.g. a date of an Added[..] line): name the line kind instead
+				return "value"
 			}
 		}
 		return "line"
